@@ -493,7 +493,7 @@ def coq_result(o):
 
 
 HEADER = """From Coq Require Import ZArith List Bool. Import ListNotations. Open Scope Z_scope.
-Require Import Rig.Model.Base Rig.Model.Place Rig.Spec.Place.
+Require Import Rig.Model.Base Rig.Model.Place Rig.Spec.Place Rig.Model.BFOrder.
 Definition pl_eqb (a b : placement) : bool :=
   (length a =? length b)%nat && forallb (fun vc => on_chip b (fst vc) (snd vc)) a.
 Definition res_eqb (a b : result placement) : bool :=
@@ -564,6 +564,13 @@ def model_exprs(c, r):
             corr("hilbert", "hilbert_place vr m cs (Some %s)" % zl(aux["hil_v"]))
     if aux.get("rcm_v") is not None and aux.get("rcm_c") is not None:
         corr("rcm", "rcm_place vr m cs %s %s" % (zl(aux["rcm_v"]), cl(aux["rcm_c"])))
+    # breadth_first_vertex_order replayed in Model/BFOrder.v: the real order is the model's output under the set choices
+    # that order dictates (and lists every vertex exactly once, which makes those choices legitimate)
+    nets_l = vlist("(%s, %s)" % (zlit(s), zl(sinks)) for s, sinks, _w in c["nets"])
+    vs_l = zl([v for v, _ in c["vres"]])
+    for name, lab in (("bf_v", "bf_order"), ("hil_v", "hilbert_bf_order")):
+        if aux.get(name) is not None:
+            ex.append(("corr:%s" % lab, "bf_order_replayb %s %s %s" % (nets_l, vs_l, zl(aux[name]))))
     # the orders computed by the real wrappers satisfy the premises of the theorems (per instance)
     for name in ("bf_v", "hil_v", "rcm_v"):
         if aux.get(name) is not None:
@@ -609,9 +616,12 @@ def run(chk, args):
                     "the float-valued temperature schedule of sa/algorithm.py (temperature, distance limit, step counts, "
                     "termination test) is not modelled: the SA theorems hold for every sequence of draws and every number "
                     "of steps; termination of the anneal is observed per case under an alarm, not proved",
-                    "set iteration order inside breadth_first_vertex_order / rcm_vertex_order / rcm_chip_order is not "
+                    "set iteration order inside rcm_vertex_order / rcm_chip_order is not "
                     "modelled: the orders they produce are recorded by wrappers and given to the model; the theorems hold "
                     "for any vertex order listing the vertices and any chip order (completeness: each working chip once)",
+                    "breadth_first_vertex_order is modelled (Model/BFOrder.v) with CPython's set choices (which member "
+                    "pop() removes, set iteration order) as oracles; proved for every oracle; each real order is replayed "
+                    "in the model under the choices it dictates; its statements are shape-matched from the source",
                     "random choices (rand.place sample, SA shuffles, kernel draws and accept decisions) are explicit oracle "
                     "inputs of the model; the harness scripts / observes them from outside, no edit of /repo"]
     chk.assumptions += ["vertices are non-negative integers, resources integers, quantities Python ints >= 0",
